@@ -1,6 +1,7 @@
-import Verif.Properties.C11
+import Verif.Properties.C12
 
 #print axioms C11.refs_exact
 #print axioms C11.allRefs_exact
 #print axioms C11.itemsRefs_exact
 #print axioms C11.itemsRefs_sub_all
+#print axioms C11.schema_ref_keys_distinct
